@@ -52,7 +52,7 @@ def run(tier, replay):
         events = json.load(open(replay))["replay"]["events"]
     else:
         if tier == "quick":
-            jobs = [["tamper", 2, 40, 1, 0, 0], ["keys", 2, 30, 2, 1, 8], ["garbage", 2, 60], ["crash", 2, 40, 3, 2, 1], ["tamper", 1, 20, 0, 2, 0]]
+            jobs = [["tamper", 2, 40, 1, 0, 0], ["keys", 2, 30, 2, 1, 8], ["garbage", 2, 60], ["crash", 2, 40, 3, 2, 1], ["tamper", 1, 20, 0, 2, 0], ["tamper", 4, 40, 4, 1, 0]]
         else:
             jobs = [["tamper", T, n, (n + T) % 5, n % 3, 1] for T in (1, 2, 4) for n in (0, 33, 70)] + [["keys", T, 50, T, T % 3, 64] for T in (1, 2, 4)] + \
                    [["garbage", T, 6000] for T in (1, 2, 4, 16)] + [["crash", 2, n, n % 5, n % 3, u] for n in (0, 20, 40, 70) for u in (0, 1)]
